@@ -23,6 +23,26 @@ ADDED_SESSION6 = {
     "C20": "SAVE.unchanged (no write to self before the file operations of save_metadata / export_impacts); STATE.pickled round trip on a small concrete object for subclasses that override __getstate__ / __setstate__.",
 }
 
+ADDED_SESSION7 = {
+    "C01": "STATE.slots (create_epistemic_state keeps the caller's base with every conditional and every argument in its slot); per-query isolation (STATE.solver-per-query on every operator entry, OBJ.identity).",
+    "C02": "STATE.slots; per-query isolation (a solver kept in the state is empty again at every exit of a query, also the exceptional ones).",
+    "C03": "STATE.slots; per-query isolation; CNF.pool (no second id pool in the state); MCS.violated on clause tables whose owners share clauses; PART.partition second call on a base whose conditional was replaced.",
+    "C04": "STATE.slots; per-query isolation; CNF.pool (no second id pool); MCS.violated with shared clauses; PART.partition second call.",
+    "C05": "STATE.slots; per-query isolation; C.query-edges: no query constraint is returned on a path that did not compute both families of correction sets (unless the one computed was found empty); CNF.pool second pool.",
+    "C06": "FACT.shape: no fact is skipped; MANAGER.init (the state refused or accepted is the manager's own, in its mode); PART.partition second call on a changed base.",
+    "C07": "OBJ.identity (a rule stated twice counts twice in both back-ends); CNF.pool second pool; PART.partition second call.",
+    "C10": "WRAP.chain (the query template holds the caller's text once inside a well-formed dummy base; parse_queries_from_str / parseCKB / visitCkbs / visitConditionals evaluated with grammar and visitor summarised or on concrete trees); REJECT.template (texts with the keyword conditionals never reach the template); REJECT.input on parseCKB.",
+    "C11": "per-query isolation (a constraint object kept across queries is one back-end's private history).",
+    "C12": "Z3.translate, W.ignore, LEX.ignore (a conditional listed twice counts twice; the layers left out of a correction-set computation do not depend on the listing order); PART.partition second call.",
+    "C13": "QUERIES.forward (rows carry the keys of the container the caller built); TIMEOUT.row time column.",
+    "C14": "C.query-edges result without a family (an expiry seen between the two sides of the c-inference query ends flagged, never in an answer from one side); TIMEOUT.row: the time column of a flagged row is a number.",
+    "C15": "CNF.pool: no second id pool in the state; MCS.violated on clause tables whose owners share clauses.",
+    "C16": "ZRANK.recursion start index with the metadata store of unknown content; ACCEPT.decision on every subclass that spells out conditional_acceptance; FACT.shape no fact skipped.",
+    "C17": "C.minima-roles of compile_constraint; C.query-edges result without a family; MCS.violated with shared clauses; ACCEPT.decision on subclass overrides.",
+    "C18": "CUSTOM.init (explicit signature names the bit positions; ranks and conditionals forwarded); ACCEPT.decision: tests of the query's own attributes (weak) are cases of the input.",
+    "C20": "STATE.pickled: __setstate__ on a concrete state with a partial rank table gives back exactly that table.",
+}
+
 LEVEL_TEXT = ("static conformance of the code's shape to the obligation table of the clauses listed in DESIGN.md "
               "section 4 for this property: every rule instance is extracted from /repo's working tree on each run by the "
               "path-sensitive effect extractor (abstract interpretation with uninterpreted branch predicates, no solver) or "
@@ -152,6 +172,8 @@ def main():
             ref, note, tech = CLAIMED[pid]
             if pid in ADDED_SESSION6:
                 note = note + " Added in the sixth session: " + ADDED_SESSION6[pid]
+            if pid in ADDED_SESSION7:
+                note = note + " Added in the seventh session: " + ADDED_SESSION7[pid]
             checks.append({
                 "property_id": pid,
                 "quick_cmd": f"/verif/vcheck {pid} --tier quick",
